@@ -519,11 +519,17 @@ def check_probe_membership(case, domain, out, stats, n=400):
             s_ = B.mkspace(v, a.shape[1])
             space = s_ if space is None else space * s_
         params = B.Points(torch.cat(cols, dim=1), space)
+    joined = bool(par_tab) and (H(case["rng"], "probe-mode") % 2 == 0)
     try:
-        ans = domain._contains(pts, params)
+        if joined:
+            # the query points carry their parameter columns themselves (as LHS / Gaussian samplers pass them)
+            ans = domain._contains(pts.join(params), B.Points.empty())
+            stats["probe_joined"] = stats.get("probe_joined", 0) + 1
+        else:
+            ans = domain._contains(pts, params)
     except Exception as ex:
         out.append(viol("C05", "probe", "raises:" + type(ex).__name__, innermost_site(ex.__traceback__),
-                        msg=str(ex)[:160]))
+                        msg=str(ex)[:160], joined=joined))
         return
     rows = len(pts.as_tensor)
     ans = torch.as_tensor(ans)
